@@ -72,6 +72,10 @@ CLAIMED = {
                      "C10_Exclusive, and the two specification mutants (no clone; recycle before Writev) must violate them (anti-vacuity); on the real channel every caller "
                      "overwrites its buffer right after each call and a pool user obtains and overwrites buffers of every size class after every scheduler step (GOMAXPROCS(1)); "
                      "checksummed payloads at the recording transport decide."),
+    "C14": dict(engine="carrier", design="3/C14", technique="TLA+ model of ReadFrom's chunk loop and ByteReader over scripted readers (Carrier.tla) checked by TLC + complete replay of the bounded script space and trace validation",
+                text="Carrier.tla models Channel.ReadFrom and utils.ByteReader over readers that return arbitrary (n, err) results (short reads, data together with EOF, empty "
+                     "reads, failures); TLC checks exactness for every script of <= 3 results; all those scripts run on the real code (sync and queued channels) and are validated "
+                     "by TLC; every head-handler carrier type x boundary size x channel mode and the conversion helpers over fragmenting readers are compared byte for byte."),
 }
 NA = {}
 for p in props:
@@ -101,6 +105,7 @@ engines = {}
 for pid, c in CLAIMED.items():
     engines.setdefault(c["engine"], []).append(pid)
 ENG = {
+    "carrier": ("spec/Carrier.tla + spec/TraceCarrier.tla + harness/cmd/driver/carrier.go", "TLA+ model of ReadFrom/ByteReader over scripted readers; complete replay of the bounded script space"),
     "wire": ("spec/Wire.tla + spec/TraceWire.tla + harness/cmd/driver/wire.go", "exact bufio model; TLC exhaustive sequences; replay + trace validation on the real transport wrappers"),
     "frame": ("spec/Frame.tla + spec/TraceFrame.tla + harness/cmd/driver/frame.go", "TLA+ transcription of the frame codecs; TLC exhaustive checking over configurations/lengths/cut points; trace validation of the real codecs"),
     "bootstrap": ("spec/Bootstrap.tla + spec/TraceBootstrap.tla + harness/cmd/driver/boot.go", "TLA+ spec of the bootstrap; TLC exhaustive checking; replay + trace validation through the gate scheduler"),
